@@ -282,7 +282,7 @@ static void run_stream(const uint8_t *data, size_t n, size_t chunk, int seg, uns
 {
 	size_t fed = 0;
 	int nres = 0, idle = 0, calls = 0, nobuf = 0;
-	long whi_bad = 0;
+	long margin = -1;       /* max over the calls of (highest changed offset - final curr), -1 none */
 	const char *last = "more";
 
 	j_arr_open("res");
@@ -302,7 +302,10 @@ static void run_stream(const uint8_t *data, size_t n, size_t chunk, int seg, uns
 		++calls;
 		last = cr.cls;
 		if (strcmp(cr.cls, "nobuf")) nobuf = 0;
-		if (cr.chg_hi >= 0 && (size_t) cr.chg_hi >= dst_state.curr) whi_bad++;
+		if (cr.chg_hi >= 0) {
+			long d = cr.chg_hi - (long) dst_state.curr;
+			if (margin == -1 || d > margin) margin = d;
+		}
 		if (!strcmp(cr.cls, "msg")) {
 			size_t mp = dst_state.data.pos, ml = (size_t) dst_state.data.msg;
 			j_item_obj_open();
@@ -333,7 +336,7 @@ static void run_stream(const uint8_t *data, size_t n, size_t chunk, int seg, uns
 	j_arr_close();
 	j_str("last", last);
 	j_int("fed", (long long) fed);
-	j_int("wr_outside", whi_bad);
+	j_int("wr_margin", margin);
 	j_int("guards", guards_good);
 	j_int("calls", calls);
 }
@@ -398,7 +401,7 @@ static void run_queue(const uint8_t *data, size_t n, size_t chunk, size_t grant,
 	j_arr_close();
 	j_str("last", last);
 	j_int("fed", (long long) fed);
-	j_int("wr_outside", 0);
+	j_int("wr_margin", -1);
 	j_int("guards", 1);
 	j_int("calls", calls);
 	free(dq.data.base);
